@@ -378,6 +378,10 @@ def load_corpus(prop_id):
 
 
 def write_evidence(prop, tier, seed, coverage, wall, violations, assumptions):
+    if os.path.realpath(REPO) != "/repo":
+        # a development run against a scratch copy (VERIF_REPO, used by harness/selftest.py): the evidence kept in
+        # /verif/evidence describes runs against /repo only
+        return
     os.makedirs(os.path.join(VERIF, "evidence"), exist_ok=True)
     ev = dict(property_id=prop.id, tier=tier, seed=seed, level="proof", coverage=coverage,
               assumptions=assumptions, wall_s=round(wall, 2), violations=violations)
